@@ -481,9 +481,8 @@ def check_reply(ctx, model):
 
 def check_window_selection(ctx, model):
     """D5: the epoch that expires is the last of the `grace_period` most recent epochs -- selected exactly like the
-    claimable window (range Descending, take(grace_period), collect) with no further filtering; the two selections
-    are compared as multisets of iterator/vector/storage operations, the expiring one being allowed only the
-    extra len()/last()/cloned()/unwrap_or_default()."""
+    claimable window (range Descending, take(grace_period)): neither walk applies a selecting / reordering adapter, and
+    an epoch expires exactly when the window holds grace_period epochs (vector length or per-epoch counter)."""
     from collections import Counter
     a = ctx.view("fee_distributor::state::get_expiring_epoch", "C09-D5")
     b = ctx.view("fee_distributor::state::get_claimable_epochs", "C09-D5")
